@@ -341,9 +341,12 @@ func (e *engine) deliver(w *Wire, to int) {
 	// then be discarded at once if it is beyond the retention, the entry may not stay)
 	bLive := liveOf(bR, bP)
 	overdue := map[string]int64{}
-	for ent, tts := range tombstonesOf(mr, mp) {
-		if ts, ok := bLive[ent]; ok && ts <= tts {
-			overdue[ent] = tts
+	if !e.tainted && ((w.Key == RingKey && w.Ring != nil) || (w.Key == PRingKey && w.PRing != nil)) {
+		// (a corrupted copy that still decodes may carry another key or another content: not a removal of ours)
+		for ent, tts := range tombstonesOf(mr, mp) {
+			if ts, ok := bLive[ent]; ok && ts <= tts {
+				overdue[ent] = tts
+			}
 		}
 	}
 	e.c.Deliver(w, to)
